@@ -1,54 +1,224 @@
 /-
-Kernel: every operation of the alphabet preserves `WF` (assembled from the primitive lemmas).
+Kernel: `WF` (the conjunction of the six clauses) is preserved by every guarded primitive and hence
+by every operation of the alphabet.
 -/
-import IrVerif.Lemmas.KernelProd
+import IrVerif.Lemmas.KernelNode
 namespace IrVerif.Kernel
 
 structure WF (w : World) : Prop where
   use : I_use w
   prod : I_prod w
   root : I_root w
+  own : I_own w
+  key : I_key w
+  node : I_node w
 
 theorem WF_empty : WF World.empty := by
   have hv : ∀ v, World.empty.val v = {} := fun v => lget_nil v
   have hn : ∀ n, World.empty.node n = {} := fun n => lget_nil n
-  refine ⟨⟨?_, ?_⟩, ⟨?_, ?_⟩, ?_⟩ <;> intros <;> simp_all [I_root]
+  have hg : ∀ g, World.empty.gr g = {} := fun g => lget_nil g
+  refine ⟨⟨?_, ?_⟩, ⟨?_, ?_⟩, ?_, ⟨?_, ?_, ?_, ?_, ?_, ?_⟩, ⟨?_, ?_⟩, ⟨?_, ?_⟩⟩ <;> intros <;>
+    simp_all [I_root, lget_nil] <;> (try cases ‹IOKind› <;> simp_all [ioList, ioCnt, ioFlag, lget_nil])
 
 theorem guardOp_WF (bad : Bool) (kind : String) (w w' : World) (h : WF w) (h' : WF w') :
     WF (guardOp bad kind w w').1 := by
   unfold guardOp; split <;> assumption
 
-/-! ### primitives -/
+/-- a change that leaves every field read by the invariant alone (names of nodes, counters and
+name sets of the authority, const tensors, ...) -/
+theorem WF_of_same_core {w w' : World}
+    (hv : ∀ v, (w'.val v).uses = (w.val v).uses ∧ (w'.val v).producer = (w.val v).producer ∧
+      (w'.val v).index = (w.val v).index ∧ (w'.val v).graph = (w.val v).graph ∧
+      (w'.val v).isIn = (w.val v).isIn ∧ (w'.val v).isOut = (w.val v).isOut ∧
+      (w'.val v).isInit = (w.val v).isInit ∧ (w'.val v).name = (w.val v).name)
+    (hn : ∀ n, (w'.node n).inputs = (w.node n).inputs ∧ (w'.node n).outputs = (w.node n).outputs ∧
+      (w'.node n).graph = (w.node n).graph)
+    (hg : ∀ g, (w'.gr g).inputs = (w.gr g).inputs ∧ (w'.gr g).outputs = (w.gr g).outputs ∧
+      (w'.gr g).inCnt = (w.gr g).inCnt ∧ (w'.gr g).outCnt = (w.gr g).outCnt ∧
+      (w'.gr g).inits = (w.gr g).inits ∧ (w'.gr g).nodes = (w.gr g).nodes) (h : WF w) : WF w' :=
+  ⟨I_use_congr (fun v => (hv v).1) (fun n => (hn n).1) h.use,
+   I_prod_congr (fun v => ⟨(hv v).2.1, (hv v).2.2.1⟩) (fun n => (hn n).2.1) h.prod,
+   I_root_congr (fun v => ⟨(hv v).2.1, (hv v).2.2.2.2.1, (hv v).2.2.2.2.2.2.1⟩) h.root,
+   I_own_congr (fun v => ⟨(hv v).2.2.2.1, (hv v).2.2.2.2.1, (hv v).2.2.2.2.2.1, (hv v).2.2.2.2.2.2.1⟩)
+     (fun g => ⟨(hg g).1, (hg g).2.1, (hg g).2.2.1, (hg g).2.2.2.1, (hg g).2.2.2.2.1⟩) h.own,
+   I_key_congr (fun v => (hv v).2.2.2.2.2.2.2) (fun g => (hg g).2.2.2.2.1) h.key,
+   I_node_congr (fun n => (hn n).2.2) (fun g => (hg g).2.2.2.2.2) h.node⟩
 
-theorem setInput_WF (w : World) (n i : Nat) (nv : Option Nat) (h : WF w) : WF (setInput w n i nv) :=
-  ⟨setInput_I_use _ _ _ _ h.use, setInput_I_prod _ _ _ _ h.prod, setInput_I_root _ _ _ _ h.root⟩
 
-theorem popInput_WF (w : World) (n : Nat) (h : WF w) : WF (popInput w n) :=
-  ⟨popInput_I_use _ _ h.use, popInput_I_prod _ _ h.prod, popInput_I_root _ _ h.root⟩
+/-! ### stage-1 primitives: the ownership / key / membership clauses are frames -/
+
+theorem setInput_WF (w : World) (n i : Nat) (nv : Option Nat) (h : WF w) : WF (setInput w n i nv) := by
+  refine ⟨setInput_I_use _ _ _ _ h.use, setInput_I_prod _ _ _ _ h.prod, setInput_I_root _ _ _ _ h.root, ?_, ?_, ?_⟩
+  · apply I_own_congr _ _ h.own <;> unfold setInput <;> frame_tac
+  · apply I_key_congr _ _ h.key <;> unfold setInput <;> frame_tac
+  · apply I_node_congr _ _ h.node <;> unfold setInput <;> frame_tac
+
+theorem popInput_WF (w : World) (n : Nat) (h : WF w) : WF (popInput w n) := by
+  refine ⟨popInput_I_use _ _ h.use, popInput_I_prod _ _ h.prod, popInput_I_root _ _ h.root, ?_, ?_, ?_⟩
+  · apply I_own_congr _ _ h.own <;> unfold popInput setInput <;> frame_tac
+  · apply I_key_congr _ _ h.key <;> unfold popInput setInput <;> frame_tac
+  · apply I_node_congr _ _ h.node <;> unfold popInput setInput <;> frame_tac
 
 theorem padInputs_WF (w : World) (n k : Nat) (h : WF w) :
     WF (w.setNode n { w.node n with inputs := (w.node n).inputs ++ List.replicate k none }) := by
-  refine ⟨padInputs_I_use _ _ _ h.use, ?_, ?_⟩
+  refine ⟨padInputs_I_use _ _ _ h.use, ?_, ?_, ?_, ?_, ?_⟩
   · apply I_prod_congr _ _ h.prod <;> frame_tac
   · apply I_root_congr _ h.root; intros; simp
+  · apply I_own_congr _ _ h.own <;> intros <;> simp
+  · apply I_key_congr _ _ h.key <;> intros <;> simp
+  · apply I_node_congr _ _ h.node <;> frame_tac
 
-theorem attachOutput_WF (w : World) (n v : Nat) (h : WF w) : WF (attachOutput w n v) :=
-  ⟨attachOutput_I_use _ _ _ h.use, attachOutput_I_prod _ _ _ h.prod, attachOutput_I_root _ _ _ h.root⟩
+theorem attachOutput_WF (w : World) (n v : Nat) (h : WF w) : WF (attachOutput w n v) := by
+  refine ⟨attachOutput_I_use _ _ _ h.use, attachOutput_I_prod _ _ _ h.prod, attachOutput_I_root _ _ _ h.root,
+    ?_, ?_, ?_⟩
+  · apply I_own_congr _ _ h.own <;> unfold attachOutput <;> frame_tac
+  · apply I_key_congr _ _ h.key <;> unfold attachOutput <;> frame_tac
+  · apply I_node_congr _ _ h.node <;> unfold attachOutput <;> frame_tac
 
-theorem allocVal_WF (w : World) (x : ValueS) (hu : x.uses = []) (hp : x.producer = none) (h : WF w) :
-    WF (allocVal w x).1 :=
-  ⟨allocVal_I_use _ _ hu h.use, allocVal_I_prod _ _ hp h.prod, allocVal_I_root _ _ hp h.root⟩
+theorem detachLast_WF (w : World) (n : Nat) (h : WF w) : WF (detachLast w n) := by
+  refine ⟨detachLast_I_use _ _ h.use, detachLast_I_prod _ _ h.prod, detachLast_I_root _ _ h.root, ?_, ?_, ?_⟩
+  · apply I_own_congr _ _ h.own <;> unfold detachLast <;> frame_tac
+  · apply I_key_congr _ _ h.key <;> unfold detachLast <;> frame_tac
+  · apply I_node_congr _ _ h.node <;> unfold detachLast <;> frame_tac
+
+/-- allocation of a value record without uses, producer, owner or flags -/
+theorem allocVal_WF (w : World) (x : ValueS) (hu : x.uses = []) (hp : x.producer = none)
+    (hg : x.graph = none) (hi : x.isIn = false) (ho : x.isOut = false) (hin : x.isInit = false) (h : WF w) :
+    WF (allocVal w x).1 := by
+  have hfresh := w.val_fresh w.vals.length (Nat.le_refl _)
+  refine ⟨allocVal_I_use _ _ hu h.use, allocVal_I_prod _ _ hp h.prod, allocVal_I_root _ _ hp h.root, ?_, ?_, ?_⟩
+  · apply I_own_congr _ _ h.own
+    · intro v; simp [allocVal]; split
+      · subst_vars; simp [hfresh, hg, hi, ho, hin]
+      · exact ⟨rfl, rfl, rfl, rfl⟩
+    · intro g; exact ⟨rfl, rfl, rfl, rfl, rfl⟩
+  · constructor
+    · intro g key u hm
+      have hm' : (key, u) ∈ (w.gr g).inits := hm
+      have hne : u ≠ w.vals.length := by
+        intro e; subst e
+        have := (h.own.init_mem g key _ hm').1
+        simp [hfresh] at this
+      simp [allocVal, hne]
+      exact h.key.name g key u hm'
+    · intro g; exact h.key.keys g
+  · apply I_node_congr _ _ h.node <;> intros <;> rfl
 
 theorem addOutput_WF (w : World) (n : Nat) (h : WF w) : WF (addOutput w n) :=
-  ⟨addOutput_I_use _ _ h.use, addOutput_I_prod _ _ h.prod, addOutput_I_root _ _ h.root⟩
-
-theorem detachLast_WF (w : World) (n : Nat) (h : WF w) : WF (detachLast w n) :=
-  ⟨detachLast_I_use _ _ h.use, detachLast_I_prod _ _ h.prod, detachLast_I_root _ _ h.root⟩
+  attachOutput_WF _ _ _ (allocVal_WF w {} rfl rfl rfl rfl rfl rfl h)
 
 theorem allocNode_WF (w : World) (k : Nat) (name : Option String) (opType : String) (h : WF w) :
     WF (w.setNode w.nodes.length { inputs := List.replicate k none, name := name, opType := opType }) := by
-  refine ⟨allocNode_I_use _ _ _ _ h.use, allocNode_I_prod _ _ _ _ h.prod, ?_⟩
-  apply I_root_congr _ h.root; intros; simp
+  have hfresh := w.node_fresh w.nodes.length (Nat.le_refl _)
+  refine ⟨allocNode_I_use _ _ _ _ h.use, allocNode_I_prod _ _ _ _ h.prod, ?_, ?_, ?_, ?_⟩
+  · apply I_root_congr _ h.root; intros; simp
+  · apply I_own_congr _ _ h.own <;> intros <;> simp
+  · apply I_key_congr _ _ h.key <;> intros <;> simp
+  · apply I_node_congr _ _ h.node
+    · intro m; simp; split
+      · subst_vars; simp [hfresh]
+      · rfl
+    · intro g; rfl
+
+/-! ### stage-2/3/4 primitives -/
+
+theorem ioInsert_WF (w : World) (g : Nat) (k : IOKind) (pos v : Nat) (h : WF w) : WF (ioInsert w g k pos v) :=
+  ⟨ioInsert_I_use _ _ _ _ _ h.use, ioInsert_I_prod _ _ _ _ _ h.prod, ioInsert_I_root _ _ _ _ _ h.root,
+   ioInsert_I_own _ _ _ _ _ h.own, ioInsert_I_key _ _ _ _ _ h.key, ioInsert_I_node _ _ _ _ _ h.node⟩
+
+theorem ioRemoveAt_WF (w : World) (g : Nat) (k : IOKind) (pos : Nat) (h : WF w) : WF (ioRemoveAt w g k pos) :=
+  ⟨ioRemoveAt_I_use _ _ _ _ h.use, ioRemoveAt_I_prod _ _ _ _ h.prod, ioRemoveAt_I_root _ _ _ _ h.root,
+   ioRemoveAt_I_own _ _ _ _ h.own, ioRemoveAt_I_key _ _ _ _ h.key, ioRemoveAt_I_node _ _ _ _ h.node⟩
+
+theorem ioReverse_WF (w : World) (g : Nat) (k : IOKind) (h : WF w) : WF (ioReverse w g k) := by
+  refine ⟨?_, ?_, ?_, ioReverse_I_own _ _ _ h.own, ?_, ?_⟩
+  · apply I_use_congr _ _ h.use <;> intros <;> rfl
+  · apply I_prod_congr _ _ h.prod <;> intros <;> first | rfl | exact ⟨rfl, rfl⟩
+  · apply I_root_congr _ h.root; intros; exact ⟨rfl, rfl, rfl⟩
+  · apply I_key_congr _ _ h.key
+    · intros; rfl
+    · intro g'; simp [ioReverse]; split <;> simp_all
+  · apply I_node_congr _ _ h.node
+    · intros; rfl
+    · intro g'; simp [ioReverse]; split <;> simp_all
+
+theorem initPut_WF (w : World) (g : Nat) (key : String) (v : Nat) (h : WF w) : WF (initPut w g key v) :=
+  ⟨initPut_I_use _ _ _ _ h.use, initPut_I_prod _ _ _ _ h.prod, initPut_I_root _ _ _ _ h.root,
+   initPut_I_own _ _ _ _ h.own h.key, initPut_I_key _ _ _ _ h.own h.key, initPut_I_node _ _ _ _ h.node⟩
+
+theorem initDel_WF (w : World) (g : Nat) (key : String) (h : WF w) : WF (initDel w g key) :=
+  ⟨initDel_I_use _ _ _ h.use, initDel_I_prod _ _ _ h.prod, initDel_I_root _ _ _ h.root,
+   initDel_I_own _ _ _ h.own h.key, initDel_I_key _ _ _ h.key, initDel_I_node _ _ _ h.node⟩
+
+theorem setNamePlain_WF (w : World) (v : Nat) (s : Option String) (h : WF w)
+    (hv : (w.val v).isInit = false) : WF (setNamePlain w v s) :=
+  ⟨setNamePlain_I_use _ _ _ h.use, setNamePlain_I_prod _ _ _ h.prod, setNamePlain_I_root _ _ _ h.root,
+   setNamePlain_I_own _ _ _ h.own, setNamePlain_I_key _ _ _ h.own h.key hv, setNamePlain_I_node _ _ _ h.node⟩
+
+theorem nodeLink_WF (w : World) (g : Nat) (a : Option Nat) (n : Nat) (h : WF w) : WF (nodeLink w g a n) :=
+  ⟨nodeLink_I_use _ _ _ _ h.use, nodeLink_I_prod _ _ _ _ h.prod, nodeLink_I_root _ _ _ _ h.root,
+   nodeLink_I_own _ _ _ _ h.own, nodeLink_I_key _ _ _ _ h.key, nodeLink_I_node _ _ _ _ h.node⟩
+
+theorem nodeUnlink_WF (w : World) (g n : Nat) (h : WF w) : WF (nodeUnlink w g n) :=
+  ⟨nodeUnlink_I_use _ _ _ h.use, nodeUnlink_I_prod _ _ _ h.prod, nodeUnlink_I_root _ _ _ h.root,
+   nodeUnlink_I_own _ _ _ h.own, nodeUnlink_I_key _ _ _ h.key, nodeUnlink_I_node _ _ _ h.node⟩
+
+/-- only the authority's counters / name sets of one graph change -/
+theorem setAuth_WF (w : World) (g : Nat) (r : GraphS)
+    (hr : r.inputs = (w.gr g).inputs ∧ r.outputs = (w.gr g).outputs ∧ r.inCnt = (w.gr g).inCnt ∧
+      r.outCnt = (w.gr g).outCnt ∧ r.inits = (w.gr g).inits ∧ r.nodes = (w.gr g).nodes) (h : WF w) :
+    WF (w.setGr g r) := by
+  apply WF_of_same_core _ _ _ h
+  · intro v; simp
+  · intro n; simp
+  · intro g'; simp; split
+    · subst_vars; exact hr
+    · simp
+
+theorem registerValue_WF (w : World) (g v : Nat) (h : WF w) : WF (registerValue w g v) := by
+  unfold registerValue
+  split
+  · exact setAuth_WF _ _ _ ⟨rfl, rfl, rfl, rfl, rfl, rfl⟩ h
+  · simp only []
+    have h1 := setAuth_WF w g { w.gr g with
+        vCtr := (uniqueLoop valName (w.gr g).vNames ((w.gr g).vNames.length + 1) (w.gr g).vCtr).2,
+        vNames := addName (w.gr g).vNames
+          (uniqueLoop valName (w.gr g).vNames ((w.gr g).vNames.length + 1) (w.gr g).vCtr).1 }
+      ⟨rfl, rfl, rfl, rfl, rfl, rfl⟩ h
+    split
+    · exact h1
+    · rename_i hi
+      exact setNamePlain_WF _ _ _ h1 (by simpa using hi)
+
+theorem registerNode_WF (w : World) (g n : Nat) (h : WF w) : WF (registerNode w g n) := by
+  unfold registerNode
+  split
+  · exact setAuth_WF _ _ _ ⟨rfl, rfl, rfl, rfl, rfl, rfl⟩ h
+  · simp only []
+    have h1 := setAuth_WF w g { w.gr g with
+        nCtr := (uniqueLoop (nodeName (w.node n).opType) (w.gr g).nNames ((w.gr g).nNames.length + 1) (w.gr g).nCtr).2,
+        nNames := addName (w.gr g).nNames
+          (uniqueLoop (nodeName (w.node n).opType) (w.gr g).nNames ((w.gr g).nNames.length + 1) (w.gr g).nCtr).1 }
+      ⟨rfl, rfl, rfl, rfl, rfl, rfl⟩ h
+    apply WF_of_same_core _ _ _ h1
+    · intro v; simp
+    · intro m; simp; split
+      · subst_vars; simp
+      · simp
+    · intro g'; simp
+
+theorem assignNames_WF (w : World) (g n : Nat) (h : WF w) : WF (assignNames w g n) :=
+  foldl_inv WF _ (fun a b ha => registerValue_WF a g b ha) _ _ (registerNode_WF w g n h)
+
+theorem allocGraph_WF (w : World) (h : WF w) : WF (w.setGr w.graphs.length {}) := by
+  have hfresh := w.gr_fresh w.graphs.length (Nat.le_refl _)
+  apply WF_of_same_core _ _ _ h
+  · intro v; simp
+  · intro n; simp
+  · intro g; simp; split
+    · subst_vars; simp [hfresh]
+    · simp
+
 
 /-! ### operations -/
 
@@ -70,12 +240,11 @@ theorem resizeOutputs_WF (w : World) (n : Nat) (k : Int) (h : WF w) : WF (resize
     | exact iter_inv WF _ (fun a ha => addOutput_WF a n ha) _ _ h
 
 theorem newValue_WF (w : World) (name : Option String) (h : WF w) : WF (newValue w name).1 :=
-  allocVal_WF _ _ rfl rfl h
+  allocVal_WF _ _ rfl rfl rfl rfl rfl rfl h
 
-theorem newNodeCore_WF (w : World) (opType : String) (name : Option String) (inputs : List (Option Nat))
+theorem newNodeMut_WF (w : World) (opType : String) (name : Option String) (inputs : List (Option Nat))
     (numOutputs : Option Int) (outputs : Option (List Nat)) (h : WF w) :
-    WF (newNodeCore w opType name inputs numOutputs outputs).1 := by
-  apply guardOp_WF _ _ _ _ h
+    WF (newNodeMut w opType name inputs numOutputs outputs) := by
   unfold newNodeMut
   simp only []
   have h1 := allocNode_WF w inputs.length name opType h
@@ -84,16 +253,222 @@ theorem newNodeCore_WF (w : World) (opType : String) (name : Option String) (inp
   | some os => exact foldl_inv WF _ (fun a b ha => attachOutput_WF a _ b ha) _ _ h1
   | none => exact iter_inv WF _ (fun a ha => addOutput_WF a _ ha) _ _ h1
 
+theorem newNodeCore_WF (w : World) (opType : String) (name : Option String) (inputs : List (Option Nat))
+    (numOutputs : Option Int) (outputs : Option (List Nat)) (h : WF w) :
+    WF (newNodeCore w opType name inputs numOutputs outputs).1 :=
+  guardOp_WF _ _ _ _ h (newNodeMut_WF _ _ _ _ _ _ h)
+
+theorem newNode_WF (w : World) (opType : String) (name : Option String) (inputs : List (Option Nat))
+    (numOutputs : Option Int) (outputs : Option (List Nat)) (graph : Option Nat) (h : WF w) :
+    WF (newNode w opType name inputs numOutputs outputs graph).1 := by
+  apply guardOp_WF _ _ _ _ h
+  have h1 := newNodeMut_WF w opType name inputs numOutputs outputs h
+  cases graph with
+  | none => exact h1
+  | some g => exact nodeLink_WF _ _ _ _ (assignNames_WF _ _ _ h1)
+
 theorem rauwUses_WF (w : World) (v r : Nat) (h : WF w) : WF (rauwUses w v r) :=
-  foldl_inv WF _ (fun a b ha => setInput_WF a _ _ _ ha) _ _ h
+  foldl_inv WF _ (fun a _ ha => setInput_WF a _ _ _ ha) _ _ h
+
+theorem ioInsertMany_WF (w : World) (g : Nat) (k : IOKind) (pos : Nat) (vs : List Nat) (h : WF w) :
+    WF (ioInsertMany w g k pos vs) :=
+  foldl_inv WF _ (fun a _ ha => ioInsert_WF a _ _ _ _ ha) _ _ h
+
+theorem ioRemoveMany_WF (w : World) (g : Nat) (k : IOKind) (ps : List Nat) (h : WF w) :
+    WF (ioRemoveMany w g k ps) :=
+  foldl_inv WF _ (fun a _ ha => ioRemoveAt_WF a _ _ _ ha) _ _ h
+
+theorem ioReplaceMany_WF (w : World) (g : Nat) (k : IOKind) (ps vs : List Nat) (h : WF w) :
+    WF (ioReplaceMany w g k ps vs) :=
+  foldl_inv WF _ (fun a _ ha => ioInsert_WF _ _ _ _ _ (ioRemoveAt_WF a _ _ _ ha)) _ _ h
+
+theorem rauw_WF (w : World) (v r : Nat) (rgo : Bool) (h : WF w) : WF (rauw w v r rgo).1 := by
+  apply guardOp_WF _ _ _ _ h
+  apply rauwUses_WF
+  split
+  · exact ioReplaceMany_WF _ _ _ _ _ h
+  · exact h
+
+theorem atPos_WF (o : Option Nat) (f : Nat → World) (w : World) (h : WF w) (hf : ∀ p, WF (f p)) :
+    WF (atPos o f w) := by
+  unfold atPos; split
+  · exact hf _
+  · exact h
+
+theorem withName_WF (o : Option String) (f : String → World) (w : World) (h : WF w) (hf : ∀ p, WF (f p)) :
+    WF (withName o f w) := by
+  unfold withName; split
+  · exact hf _
+  · exact h
+
+theorem ioMut_WF (w : World) (g : Nat) (k : IOKind) (m : IOMut) (h : WF w) : WF (ioMut w g k m).1 := by
+  cases m <;> simp only [ioMut]
+  case append v => exact guardOp_WF _ _ _ _ h (ioInsert_WF _ _ _ _ _ h)
+  case extend vs => exact guardOp_WF _ _ _ _ h (ioInsertMany_WF _ _ _ _ _ h)
+  case insert i v => exact guardOp_WF _ _ _ _ h (ioInsert_WF _ _ _ _ _ h)
+  case pop i => exact guardOp_WF _ _ _ _ h (atPos_WF _ _ _ h (fun p => ioRemoveAt_WF _ _ _ _ h))
+  case remove v => exact guardOp_WF _ _ _ _ h (atPos_WF _ _ _ h (fun p => ioRemoveAt_WF _ _ _ _ h))
+  case clear => exact iter_inv WF _ (fun a ha => ioRemoveAt_WF a _ _ _ ha) _ _ h
+  case setItem i v =>
+    exact guardOp_WF _ _ _ _ h (atPos_WF _ _ _ h (fun p => ioInsert_WF _ _ _ _ _ (ioRemoveAt_WF _ _ _ _ h)))
+  case setSlice start stop step vs =>
+    split
+    · exact h
+    · apply guardOp_WF _ _ _ _ h
+      split
+      · exact ioInsertMany_WF _ _ _ _ _ (ioRemoveMany_WF _ _ _ _ h)
+      · exact ioReplaceMany_WF _ _ _ _ _ h
+  case delItem i => exact guardOp_WF _ _ _ _ h (atPos_WF _ _ _ h (fun p => ioRemoveAt_WF _ _ _ _ h))
+  case delSlice start stop step => split <;> first | exact h | exact ioRemoveMany_WF _ _ _ _ h
+  case reverse => exact ioReverse_WF _ _ _ h
+  case iadd vs => exact h
+  case imul k => exact h
+
+theorem initSetItem_WF (w : World) (g : Nat) (key : String) (v : Nat) (h : WF w) :
+    WF (initSetItem w g key v).1 :=
+  guardOp_WF _ _ _ _ h (initPut_WF _ _ _ _ h)
+
+theorem initUpdateSeq_WF (g : Nat) : ∀ (kvs : List (String × Nat)) (w : World), WF w → WF (initUpdateSeq w g kvs).1
+  | [], w, h => h
+  | (k, v) :: rest, w, h => by
+    have h1 := initSetItem_WF w g k v h
+    unfold initUpdateSeq
+    split
+    · rename_i w1 heq
+      rw [heq] at h1
+      exact initUpdateSeq_WF g rest w1 h1
+    · rename_i r hne
+      exact h1
+
+theorem initUpdate_WF (w : World) (g : Nat) (kvs : List (String × Nat)) (h : WF w) : WF (initUpdate w g kvs).1 :=
+  guardOp_WF _ _ _ _ h (initUpdateSeq_WF g kvs w h)
+
+theorem initMut_WF (w : World) (g : Nat) (m : InitMut) (h : WF w) : WF (initMut w g m).1 := by
+  cases m <;> simp only [initMut]
+  case setItem key v => exact initSetItem_WF _ _ _ _ h
+  case delItem key => exact guardOp_WF _ _ _ _ h (initDel_WF _ _ _ h)
+  case add v => exact guardOp_WF _ _ _ _ h (withName_WF _ _ _ h (fun _ => initPut_WF _ _ _ _ h))
+  case pop key => exact guardOp_WF _ _ _ _ h (initDel_WF _ _ _ h)
+  case popitem => exact guardOp_WF _ _ _ _ h (withName_WF _ _ _ h (fun _ => initDel_WF _ _ _ h))
+  case clear =>
+    apply iter_inv WF _ _ _ _ h
+    intro a ha; exact withName_WF _ _ _ ha (fun _ => initDel_WF _ _ _ ha)
+  case update kvs => exact initUpdate_WF _ _ _ h
+  case setdefault key v =>
+    apply guardOp_WF _ _ _ _ h
+    split
+    · exact h
+    · exact initPut_WF _ _ _ _ h
+  case register v => exact guardOp_WF _ _ _ _ h (initPut_WF _ _ _ _ h)
+
+theorem initDel_isInit (w : World) (g : Nat) (key : String) (v : Nat) (h : WF w)
+    (hg : (w.val v).graph = some g) (hn : (w.val v).name = some key) (hi : (w.val v).isInit = true) :
+    ((initDel w g key).val v).isInit = false := by
+  obtain ⟨g', key', hg', hm⟩ := h.own.init_flag v hi
+  rw [hg] at hg'; cases hg'
+  have := (h.key.name g key' v hm).1
+  rw [hn] at this; cases this
+  have hl := lookupInit_of_mem _ _ _ (h.key.keys g) hm
+  rw [initDel_val _ _ _ _ hl]; simp
+
+theorem setName_WF (w : World) (v : Nat) (s : Option String) (h : WF w) : WF (setName w v s).1 := by
+  unfold setName
+  simp only []
+  apply guardOp_WF _ _ _ _ h
+  split
+  · exact h
+  · split
+    · rename_i hi
+      split
+      · rename_i new g old heq
+        have hq : s = some new ∧ (w.val v).graph = some g ∧ (w.val v).name = some old := by
+          revert heq; split <;> simp_all
+        apply initPut_WF
+        apply setNamePlain_WF _ _ _ (initDel_WF _ _ _ h)
+        exact initDel_isInit w g old v h hq.2.1 hq.2.2 hi
+      · exact h
+    · rename_i hi
+      exact setNamePlain_WF _ _ _ h (by simpa using hi)
+
+theorem extendMut_WF (w : World) (g : Nat) (ns : List Nat) (h : WF w) : WF (extendMut w g ns) :=
+  foldl_inv WF _ (fun a _ ha => nodeLink_WF _ _ _ _ (assignNames_WF a _ _ ha)) _ _ h
+
+theorem linkMany_WF (w : World) (g : Nat) (anchor : Option Nat) (ns : List Nat) (h : WF w) :
+    WF (linkMany w g anchor ns) := by
+  unfold linkMany
+  exact foldl_inv (fun (p : World × Option Nat) => WF p.1) _
+    (fun a _ ha => nodeLink_WF _ _ _ _ (assignNames_WF a.1 _ _ ha)) _ _ h
+
+theorem graphAppend_WF (w : World) (g n : Nat) (h : WF w) : WF (graphAppend w g n).1 :=
+  guardOp_WF _ _ _ _ h (nodeLink_WF _ _ _ _ (assignNames_WF _ _ _ h))
+
+theorem graphExtend_WF (w : World) (g : Nat) (ns : List Nat) (h : WF w) : WF (graphExtend w g ns).1 :=
+  guardOp_WF _ _ _ _ h (extendMut_WF _ _ _ h)
+
+theorem graphInsertAfter_WF (w : World) (g a : Nat) (ns : List Nat) (h : WF w) :
+    WF (graphInsertAfter w g a ns).1 :=
+  guardOp_WF _ _ _ _ h (linkMany_WF _ _ _ _ h)
+
+theorem graphInsertBefore_WF (w : World) (g a : Nat) (ns : List Nat) (h : WF w) :
+    WF (graphInsertBefore w g a ns).1 :=
+  guardOp_WF _ _ _ _ h (linkMany_WF _ _ _ _ h)
+
+theorem detachInputs_WF (w : World) (n : Nat) (h : WF w) : WF (detachInputs w n) :=
+  foldl_inv WF _ (fun a _ ha => setInput_WF a _ _ _ ha) _ _ h
+
+theorem graphRemove_WF (w : World) (g : Nat) (ns : List Nat) (safe : Bool) (h : WF w) :
+    WF (graphRemove w g ns safe).1 := by
+  apply guardOp_WF _ _ _ _ h
+  apply foldl_inv WF _ _ _ _ h
+  intro a n ha
+  apply nodeUnlink_WF
+  split
+  · exact detachInputs_WF _ _ ha
+  · exact ha
+
+theorem sortApply_WF (w : World) (orders : List (Nat × List Nat)) (h : WF w) : WF (sortApply w orders) := by
+  apply foldl_inv WF _ _ _ _ h
+  intro a p ha
+  split
+  · exact extendMut_WF _ _ _ ha
+  · exact ha
+
+theorem newGraph_WF (w : World) (inputs outputs nodes inits : List Nat) (h : WF w) :
+    WF (newGraph w inputs outputs nodes inits).1 := by
+  apply guardOp_WF _ _ _ _ h
+  apply extendMut_WF
+  apply foldl_inv WF _ (fun a _ ha => registerValue_WF a _ _ ha)
+  apply foldl_inv WF _ (fun a _ ha => registerValue_WF a _ _ ha)
+  apply foldl_inv WF _ (fun a _ ha => initPut_WF a _ _ _ ha)
+  apply ioInsertMany_WF
+  apply ioInsertMany_WF
+  exact allocGraph_WF w h
+
+theorem setConst_WF (w : World) (v : Nat) (h : WF w) : WF (setConst w v).1 := by
+  apply WF_of_same_core _ _ _ h
+  · intro u; simp [setConst, World.val, World.setVal, lget_lset]; split <;> simp_all
+  · intro n; exact ⟨rfl, rfl, rfl⟩
+  · intro g; exact ⟨rfl, rfl, rfl, rfl, rfl, rfl⟩
 
 theorem step_WF (w : World) (op : Op) (h : WF w) : WF (step w op).1 := by
-  cases op with
-  | newValue name => exact newValue_WF _ _ h
-  | newNode opType name inputs numOutputs outputs => exact newNodeCore_WF _ _ _ _ _ _ h
-  | replaceInput n idx v => exact replaceInput_WF _ _ _ _ h
-  | resizeInputs n k => exact resizeInputs_WF _ _ _ h
-  | resizeOutputs n k => exact resizeOutputs_WF _ _ _ h
-  | rauw v r => exact rauwUses_WF _ _ _ h
+  cases op <;> simp only [step]
+  case newValue name => exact newValue_WF _ _ h
+  case setConst v => exact setConst_WF _ _ h
+  case newNode opType name inputs numOutputs outputs graph => exact newNode_WF _ _ _ _ _ _ _ h
+  case newGraph inputs outputs nodes inits => exact newGraph_WF _ _ _ _ _ h
+  case replaceInput n idx v => exact replaceInput_WF _ _ _ _ h
+  case resizeInputs n k => exact resizeInputs_WF _ _ _ h
+  case resizeOutputs n k => exact resizeOutputs_WF _ _ _ h
+  case rauw v r rgo => exact rauw_WF _ _ _ _ h
+  case io g k m => exact ioMut_WF _ _ _ _ h
+  case init g m => exact initMut_WF _ _ _ h
+  case setName v s => exact setName_WF _ _ _ h
+  case append g n => exact graphAppend_WF _ _ _ h
+  case extend g ns => exact graphExtend_WF _ _ _ h
+  case insertAfter g a ns => exact graphInsertAfter_WF _ _ _ _ h
+  case insertBefore g a ns => exact graphInsertBefore_WF _ _ _ _ h
+  case remove g ns safe => exact graphRemove_WF _ _ _ _ h
+  case sortOk orders => exact sortApply_WF _ _ h
+  case sortCycle => exact h
 
 end IrVerif.Kernel
